@@ -436,11 +436,14 @@ class RandomPolicy:
     """Seeded schedule: how many things happen between two controller passes (burst), how eager the environment is
     (task exits / kills) and how eager the controller callbacks are relative to the other rx hops (ctrl_weight)."""
 
-    def __init__(self, seed, burst_max=4, env_bias=0.5, ctrl_weight=1.0):
+    def __init__(self, seed, burst_max=4, env_bias=0.5, ctrl_weight=1.0, eager_internal=False):
         self.rnd = random.Random(seed)
         self.burst_max = burst_max
         self.env_bias = env_bias
         self.ctrl_weight = ctrl_weight
+        # eager_internal: rx hops that are not controller callbacks run as soon as they are scheduled (FIFO), so the
+        # random choices are spent on the orderings that matter: task exits, controller callbacks, scheduler passes
+        self.eager_internal = eager_internal
 
     def burst(self, h):
         return self.rnd.randint(0, self.burst_max)
@@ -448,6 +451,10 @@ class RandomPolicy:
     def pick(self, h, choices):
         envs = [c for c in choices if c[0] == "env"]
         items = [c for c in choices if c[0] == "item"]
+        if self.eager_internal:
+            internal = [c for c in items if c[1].lane != "pool:Controller"]
+            if internal:
+                return internal[0]
         if envs and (not items or self.rnd.random() < self.env_bias):
             return self.rnd.choice(envs)
         if self.ctrl_weight == 1.0:
